@@ -6,6 +6,8 @@ from .c01 import FUNCS
 
 
 def run(chk):
+    from .common import per_instance_state_of_modules
+    per_instance_state_of_modules(chk, "C14.classes.state_is_per_instance", ['context', 'operation.callback', 'operation.invoke', 'state'])   # no object created in a class body: instances share no mutable state through the class
     ex = explore("callback")
     handler_preamble(chk, ex, FUNCS["callback"])
     hobl.c14_callback_create(chk, ex)
